@@ -1,0 +1,122 @@
+//! Runs the real linker-script section-rule code (`SectionRule::new` / `matches`,
+//! `SectionRules::from_rules` / `lookup`) and the glob helpers of `glob_match.rs` on
+//! caller-supplied patterns and names. Adds no behaviour.
+
+use crate::glob_match::GlobPatternType;
+use crate::glob_match::analyze_glob_pattern;
+use crate::glob_match::compile_glob_pattern;
+use crate::glob_match::unescape_pattern;
+use crate::layout_rules::SectionOutputInfo;
+use crate::layout_rules::SectionRule;
+use crate::layout_rules::SectionRuleOutcome;
+use crate::layout_rules::SectionRules;
+use crate::output_section_id::OutputSectionId;
+
+/// How a rule is constructed: through `SectionRule::new` (what linker scripts use) or through
+/// the const constructors used by the built-in rule table.
+#[derive(Clone, Copy, PartialEq, Eq)]
+pub enum RuleCtor {
+    New,
+    Exact,
+    Prefix,
+}
+
+pub struct RuleSpec<'a> {
+    pub ctor: RuleCtor,
+    pub keep: bool,
+    pub pattern: &'a [u8],
+    pub file_pattern: Option<&'a [u8]>,
+}
+
+/// 0 = Exact, 1 = EscapedExact, 2 = Star, 3 = NonStar.
+pub fn glob_analyze(pattern: &[u8]) -> u8 {
+    match analyze_glob_pattern(pattern) {
+        GlobPatternType::Exact => 0,
+        GlobPatternType::EscapedExact => 1,
+        GlobPatternType::Star => 2,
+        GlobPatternType::NonStar => 3,
+    }
+}
+
+pub fn glob_unescape(pattern: &[u8]) -> Vec<u8> {
+    unescape_pattern(pattern)
+}
+
+/// `compile_glob_pattern(pattern)` then `Pattern::matches(name)`; a name that is not UTF-8 is
+/// reported as no match (that is what every caller in libwild does).
+pub fn glob_compile_matches(pattern: &[u8], name: &[u8]) -> Result<bool, String> {
+    let compiled = compile_glob_pattern(pattern).map_err(|e| e.to_string())?;
+    Ok(std::str::from_utf8(name).is_ok_and(|n| compiled.matches(n)))
+}
+
+fn build<'a>(spec: &RuleSpec<'a>, index: usize) -> Result<SectionRule<'a>, String> {
+    let id = OutputSectionId::from_usize(index);
+    let info = if spec.keep {
+        SectionOutputInfo::keep(id)
+    } else {
+        SectionOutputInfo {
+            section_id: id,
+            must_keep: false,
+        }
+    };
+    let outcome = SectionRuleOutcome::Section(info);
+    match spec.ctor {
+        RuleCtor::New => {
+            SectionRule::new(spec.pattern, spec.file_pattern, outcome).map_err(|e| e.to_string())
+        }
+        RuleCtor::Exact => Ok(SectionRule::exact(spec.pattern, outcome)),
+        RuleCtor::Prefix => Ok(SectionRule::prefix(spec.pattern, outcome)),
+    }
+}
+
+/// `SectionRule::new`: matcher kind (0 exact, 1 prefix, 2 glob) and its literal bytes.
+pub fn rule_new(pattern: &[u8], file_pattern: Option<&[u8]>) -> Result<(u8, Vec<u8>), String> {
+    let spec = RuleSpec {
+        ctor: RuleCtor::New,
+        keep: false,
+        pattern,
+        file_pattern,
+    };
+    Ok(build(&spec, 0)?.verif_matcher())
+}
+
+pub fn rule_matches(
+    spec: &RuleSpec,
+    section_name: &[u8],
+    file_name: Option<&[u8]>,
+) -> Result<bool, String> {
+    Ok(build(spec, 0)?.verif_matches(section_name, file_name))
+}
+
+/// Builds the rules, `SectionRules::from_rules`, then `lookup` with an all-zero section header.
+/// Returns the index of the rule whose outcome was returned and its `must_keep`, or `None` when
+/// the outcome is `Custom` (no rule matched).
+pub fn rules_lookup(
+    specs: &[RuleSpec],
+    section_name: &[u8],
+    file_name: Option<&[u8]>,
+) -> Result<Option<(usize, bool)>, String> {
+    let rules = specs
+        .iter()
+        .enumerate()
+        .map(|(i, s)| build(s, i))
+        .collect::<Result<Vec<_>, String>>()?;
+    let table = SectionRules::verif_from_rules(&rules);
+    let header = crate::elf::SectionHeader {
+        sh_name: Default::default(),
+        sh_type: Default::default(),
+        sh_flags: Default::default(),
+        sh_addr: Default::default(),
+        sh_offset: Default::default(),
+        sh_size: Default::default(),
+        sh_link: Default::default(),
+        sh_info: Default::default(),
+        sh_addralign: Default::default(),
+        sh_entsize: Default::default(),
+    };
+    Ok(match table.lookup(section_name, file_name, &header) {
+        SectionRuleOutcome::Section(info) => Some((info.section_id.as_usize(), info.must_keep)),
+        SectionRuleOutcome::Custom => None,
+        other => return Err(format!("unexpected outcome {other:?}")),
+    })
+}
